@@ -116,7 +116,7 @@ def scenario_queue_full(repo, seed, qsize=1, batch=True):
     return sim, viols, None
 
 
-def scenario_requester_becomes_leader(repo, seed, n_first=2, n_local=1, batch=True):
+def scenario_requester_becomes_leader(repo, seed, n_first=2, n_local=1, batch=True, replies=True):
     """A follower's forwarded commands are acknowledged by the leader with their log positions (the follower now
     waits for those positions to commit) but never replicated; the leader is lost; the FOLLOWER itself becomes leader
     and its own no-op and local commands take exactly those positions.  Every callback must fire exactly once: the
@@ -137,9 +137,14 @@ def scenario_requester_becomes_leader(repo, seed, n_first=2, n_local=1, batch=Tr
     keep = [m for m in sim.chan[(L1, F)] if m.get("type") == "apply_command_response"]
     sim.chan[(L1, F)].clear()
     sim.chan[(L1, P)].clear()
-    for m in keep:
-        sim.inject(L1, F, m)
-    waiting = sum(len(v) for v in sim.P(F, "commandsWaitingCommit").values())
+    if replies:
+        for m in keep:
+            sim.inject(L1, F, m)
+        waiting = sum(len(v) for v in sim.P(F, "commandsWaitingCommit").values())
+    else:
+        # the leader is lost before any reply leaves it: the requests wait for a reply that never comes; the requester
+        # learns of the leader change only through its OWN election
+        waiting = len(sim.P(F, "commandsWaitingReply"))
     sim.disconnect(L1, F)
     sim.disconnect(L1, P)
     for _ in range(400):
@@ -221,14 +226,16 @@ def run(ctx):
         for n_first in (1, 2, 3):
             for n_local in (1, 2):
                 for batch in (True, False):
-                    sim, v, note = scenario_requester_becomes_leader(ctx.repo, ctx.seed, n_first, n_local, batch)
-                    cases += 1
-                    seen.add((("reqlead", n_first, n_local, batch), note is None))
-                    if note:
-                        notes.append(note)
-                    for x in v:
-                        x["replay"] = {"component": "corr.c02_forwarding", "reqlead": [n_first, n_local, batch], "seed": ctx.seed}
-                    viols.extend(v)
+                    for replies in (True, False):
+                        sim, v, note = scenario_requester_becomes_leader(ctx.repo, ctx.seed, n_first, n_local, batch, replies)
+                        cases += 1
+                        seen.add((("reqlead", n_first, n_local, batch, replies), note is None))
+                        if note:
+                            notes.append(note)
+                        for x in v:
+                            x["replay"] = {"component": "corr.c02_forwarding", "reqlead": [n_first, n_local, batch, replies],
+                                           "seed": ctx.seed}
+                        viols.extend(v)
     reached = len([1 for (p, ok) in seen if ok])
     r = {"name": "corr.c02_forwarding", "cases": cases, "distinct": len(seen), "violations": viols[:5],
          "coverage": {"plans": len(plans), "plans_reaching_the_point": reached, "notes": sorted(set(notes))[:5]},
